@@ -14,7 +14,11 @@ func init() {
 	register("C04", "other", []string{
 		"decides: the terminator test dominates every interpretation effect; the terminator edge only advances and bulk-copies; every look-ahead consumption refuses `--`; nothing is interpreted after a bulk copy; optional kinds never enter the mandatory-value loop",
 		"the bulk-copy helper's summary (copies current and all following tokens verbatim, drains the iterator) is computed by the typestate engine, see C03",
-	}, rC04Dominates, rC04TrueEdge, rC04Lookahead, rC04AfterBulk, rC04OptionalMin, func(w *World, r *Report) { subRule(w, r, rC10Call, "R04.6", "what Dispatch runs is decided by the parser alone: the function of the final node, never re-derived from the remaining arguments (same obligations as C10 R10.1)", 2) }, func(w *World, r *Report) { subRule(w, r, rC10FinalNode, "R04.7", "finalNode is only the parser's result (same obligations as C10 R10.4)", 2) }, rArgsUnmodified("R04.8"))
+	}, rC04Dominates, rC04TrueEdge, rC04Lookahead, rC04AfterBulk, rC04OptionalMin, func(w *World, r *Report) {
+		subRule(w, r, rC10Call, "R04.6", "what Dispatch runs is decided by the parser alone: the function of the final node, never re-derived from the remaining arguments (same obligations as C10 R10.1)", 2)
+	}, func(w *World, r *Report) {
+		subRule(w, r, rC10FinalNode, "R04.7", "finalNode is only the parser's result (same obligations as C10 R10.4)", 2)
+	}, rArgsUnmodified("R04.8"))
 }
 
 func (m *parserModel) normalEdgeOK(term ssa.Instruction, k int) bool {
